@@ -208,3 +208,43 @@ def run(ctx, prog, res):
                         r6.check(first is not None and want == first, {"fn": f.id, "compares_successor_with": vs[0].split("::")[-1], "frame_start": first}, "C05.R6:%s" % f.id,
                                  "%s detects the wrap of Month::next by comparing with %s, but the cycle restarts at %s" % (f.id, vs[0].split("::")[-1], first), lib.where_of(f, d["node"]))
     r6.floor(1)
+
+    # R7 -------------------------------------------------------------------------------------
+    r7 = res.rule("C05.R7", "an open-ended date (`May 1+`, `2024 May 1+`, `2024 easter+`) runs to the end of the year, or for ever when its start carries a year - for every kind of start date: where the builder chooses the far end `9999 Dec 31`, the choice is controlled by a test that looks at the year of every variant of Date that has one (Date::has_year, or an equivalent inline test)")
+    DATE = "opening_hours_syntax::rules::day::Date"
+    year_variants = sorted(v["name"] for v in prog.adts[DATE]["variants"] if any(f["name"] == "year" for f in v["fields"])) if DATE in prog.adts else []
+    hy = prog.fns.get(DATE + "::has_year")
+    hy_reads = {v for (v, f) in lib.reads(prog, hy.id, DATE) if f == "year"} if hy else set()
+    n7 = 0
+    for fid, fn in sorted(prog.fns.items()):
+        if not fid.startswith("opening_hours_syntax::parser::") or fn.from_expansion:
+            continue
+        for bb, t in fn.calls():
+            if not (flow.call_name(t) or "").endswith("day::Date::ymd"):
+                continue
+            shs = [flow.shape(fn, a, depth=4) for a in t["args"]]
+            if "9999" not in shs:
+                continue
+            n7 += 1
+            # switches that control this block: a dominating switch one of whose edges dominates the block
+            ctrl = []
+            cur = fn.blocks[bb]["idom"]
+            while cur is not None:
+                tt = fn.blocks[cur]["term"]
+                if tt["k"] == "switch":
+                    succs = set(fn.succs(cur))
+                    doms = [s_ for s_ in succs if fn.dominates(s_, bb)]
+                    if len(doms) == 1 and len(succs) > 1:
+                        ctrl.append(flow.shape(fn, tt["op"], depth=6))
+                cur = fn.blocks[cur]["idom"]
+            text = " ".join(ctrl)
+            if "Date::has_year(" in text:
+                seen = hy_reads
+                how = "Date::has_year"
+            else:
+                seen = {v for v in year_variants if re.search(r"@%s\.year" % v, text)}
+                how = "inline test"
+            missing = [v for v in year_variants if v not in seen]
+            r7.check(bool(year_variants) and not missing, {"fn": fid.split("::")[-1], "far_end": "Date::ymd(%s)" % ", ".join(shs), "decided_by": how, "year_looked_at_for": sorted(seen)}, "C05.R7:%s" % fid.split("::")[-1],
+                     "%s chooses the far end `9999 Dec 31` of an open-ended date by a test that never looks at the year of %s: `2024 easter+` ends on the undated Dec 31 (every year) instead of running for ever" % (fid, ", ".join("Date::" + v for v in missing)), lib.where_of(fn, t))
+    r7.floor(1)
